@@ -212,7 +212,7 @@ Definition al_step (R : rops) (P : al_params) (s : al_state) (e : al_event) : al
   let bcineq := if upd then e_cineq e else s_cineq s in
   if src_done_stop conv (src_done_step_ok (e_ok e) (e_bvalid e))
   then mkstate bx bceq bcineq (s_ro s) (s_lambda s) (s_miu s) (s_old s) (s_outer s)
-               (status_of_Z (src_done_status conv (e_bvalid e))) true
+               (status_of_Z (src_done_status conv (src_done_step_ok (e_ok e) (e_bvalid e)))) true
   else
     let ro' := if src_al_grow (s_outer s) (qltb (rmul R (p_tau P) (s_old s)) crit)
                then rmul R (p_gamma P) (s_ro s) else s_ro s in
